@@ -263,7 +263,7 @@ fn synthetic_case(ctx: &mut Ctx, k: u64) {
             Ok(_) => "rows-changed",
             Err(_) => "rewritten-plan-fails",
         };
-        ctx.violation(k, &format!("C05:{pass}:{kind}:synthetic-plan:{}", kinds.join("+")), format!("pass {pass} changes the result of a synthetic plan"), json!({"plan": txt.chars().take(2500).collect::<String>(), "database": format!("{db:?}"), "pass": pass, "unrewritten_result": rows_json(&base.iter().cloned().collect::<Vec<_>>()), "rewritten_outcome": match got { Ok(g) => rows_json(&g.into_iter().collect::<Vec<_>>()), Err(e) => json!(e) }}));
+        ctx.violation(k, &format!("C05:{pass}:{kind}:synthetic-plan:{}", kinds.join("+")), format!("pass {pass} changes the result of a synthetic plan"), json!({"plan": txt.chars().take(2500).collect::<String>(), "rewritten_plan": if pass == "optimize" { format!("{:?}", Optimizer::new().optimize(plan.clone())).chars().take(2500).collect::<String>() } else { String::new() }, "database": format!("{db:?}"), "pass": pass, "unrewritten_result": rows_json(&base.iter().cloned().collect::<Vec<_>>()), "rewritten_outcome": match got { Ok(g) => rows_json(&g.into_iter().collect::<Vec<_>>()), Err(e) => json!(e) }}));
     }
 }
 
